@@ -469,7 +469,9 @@ def _c12_lis_empty_pass(v):
 LEVEL_TEXT = ('The real batch converters are run in child processes on generated directories (valid + damaged + foreign files) sequentially, '
               'with 1-16 worker processes under injected delays, and file by file; result dictionaries and output trees are compared '
               'between all modes with the file-alone run as ground truth, an open() audit hook in the workers checks that every output '
-              'file has exactly one writing task, and the worker event log shows which interleavings were actually observed.')
+              'file has exactly one writing task, and the worker event log shows which interleavings were actually observed.  Before the batch runs '
+              'every file is converted alone under a LINE-event counter (bounded progress on a logical clock), and one directory of more than a '
+              'thousand small files per converter exercises whatever a process accumulates per file.')
 LEVEL_NOTE = ('Trusted: the OS scheduler to produce varied interleavings under delays (count reported), the independent generators for what a '
               'valid file is. Process-level only: there are no threads in the subject.')
-TECHNIQUE = 'runtime monitoring: metamorphic comparison of sequential / multi-process / file-alone executions with worker event logs, audit-hook exactly-once check and schedule perturbation'
+TECHNIQUE = 'runtime monitoring: metamorphic comparison of sequential / multi-process / file-alone executions with worker event logs, audit-hook exactly-once check, schedule perturbation and a sys.monitoring step budget per file'
